@@ -40,6 +40,7 @@ const (
 	ctxInnerArm
 	ctxLambda
 	ctxPipeArg
+	ctxShadow // after an earlier match (on another union) whose arm binder has the scrutinee's name
 	numCtx
 )
 
@@ -181,6 +182,9 @@ func (c c09Case) source(pkg string) string {
 		b.WriteString("let f (u:U) =\n  let us = [u]\n  let rs = slice.Map (fun (v:U) ->\n" + c.matchLines("v", "                        ") + "                      ) us\n  slice.Head rs\n")
 	case ctxPipeArg:
 		b.WriteString("let h (k:int) (u:U) =\n" + c.matchLines("u", "  ") + "\nlet f (u:U) =\n  u |> h 3\n")
+	case ctxShadow:
+		b.WriteString("type V =\n| Va of int\n| Vb\n\ntype W2 =\n| Hold of V\n| Keep\n\nlet g2 (v:V) =\n  1\n\n")
+		b.WriteString("let f2 (u:U) (w:W2) =\n  let r0 =\n    match w with\n    | Hold u -> g2 u\n    | Keep -> 0\n  frt.Printf1 \"%d\\n\" r0\n" + c.matchLines("u", "  ") + "\nlet f (u:U) =\n  f2 u Keep\n")
 	}
 	b.WriteString("\nlet Run () =\n")
 	for i := 0; i < c.n; i++ {
@@ -323,7 +327,7 @@ func runC09(r *core.Run, tier string) {
 		r.Inconclusive("fc does not build: " + err.Error())
 		return
 	}
-	r.Rule("a case is one file holding one match on a union value, transpiled by its own fc process: every union of 1..4 cases (thorough: 5) x every payload/no-payload mix x every non-empty duplicate-free arm sequence x every arm form (bind / `_` / no payload) x with/without default, plus a seeded sample placed in 5 nesting contexts (let right-hand side, if branch, inside another match arm, inside a lambda, in a piped partially applied function); observed: exit status, diagnostic, presence of gen file; expected by set computation; a sample of accepted programs is compiled and run on one value per case; non-trivial = union with >= 2 cases; distinct by (union shape, arm sequence, forms, default, context)")
+	r.Rule("a case is one file holding one match on a union value, transpiled by its own fc process: every union of 1..4 cases (thorough: 5) x every payload/no-payload mix x every non-empty duplicate-free arm sequence x every arm form (bind / `_` / no payload) x with/without default, plus a seeded sample placed in 6 nesting contexts (let right-hand side, if branch, inside another match arm, inside a lambda, in a piped partially applied function, after a match on another union whose arm binder carries the scrutinee's name); observed: exit status, diagnostic, presence of gen file; expected by set computation; a sample of accepted programs is compiled and run on one value per case; non-trivial = union with >= 2 cases; distinct by (union shape, arm sequence, forms, default, context)")
 	r.Assume("the match target's union type is known when the match is parsed (annotated parameter or bound variable)", "arms never repeat a case (Go rejects duplicate type-switch cases)")
 	cases := c09Enumerate(tier, core.NewRand(r.SeedV, "c09"))
 	type obs struct {
@@ -423,6 +427,9 @@ func runC09(r *core.Run, tier string) {
 				c := cases[idx]
 				var want strings.Builder
 				for i := 0; i < c.n; i++ {
+					if c.ctx == ctxShadow && c.second == nil {
+						want.WriteString("0\n") // the earlier match of this context prints its result
+					}
 					fmt.Fprintf(&want, "%d\n", c.expect(i))
 				}
 				files := map[string]string{"m.fo": c.source(name), "gen_m.go": results[idx].gen}
